@@ -51,6 +51,9 @@ type StreamManager struct {
 	Metrics *Metrics
 
 	wg sync.WaitGroup
+
+	// kicked is set when the server ended the stream with a conflict error
+	kicked bool
 }
 
 type PostConnect func(c Sender)
@@ -79,15 +82,17 @@ func (sm *StreamManager) Run() error {
 		case StateSessionEstablished:
 			sm.Metrics.setLoginTime()
 		case StateDisconnected:
+			if sm.kicked {
+				// We have been kicked by another session: do not reconnect, to avoid a connection loop.
+				return nil
+			}
 			// Reconnect on disconnection
 			return sm.resume()
 		case StateStreamError:
-			sm.client.Disconnect()
-			// Only try reconnecting if we have not been kicked by another session to avoid connection loop.
+			// The receive loop closes the connection after a stream error and the loss is then reported
+			// as a disconnection: the reconnection happens there, once, and not from inside the receive loop.
 			// TODO: Make this conflict exception a permanent error
-			if e.StreamError != "conflict" {
-				return sm.resume()
-			}
+			sm.kicked = e.StreamError == "conflict"
 		case StatePermanentError:
 			// Do not attempt to reconnect
 		}
